@@ -72,7 +72,7 @@ def h_structure(ctx, cls, nopt, nmem, nsym):
 from harness import c09 as _c09
 from harness import c10 as _c10
 
-HARNESSES = dict(structure=h_structure, wire=wire.h_wire, dt_write=_c09.h_write, dt_read=_c09.h_read,
+HARNESSES = dict(structure=h_structure, wire=wire.h_wire, wire_long=wire.h_wire_long, dt_write=_c09.h_write, dt_read=_c09.h_read,
                  string_value=_c10.h_string_value, string_text=_c10.h_string_text, string_tokens=_c10.h_string_tokens,
                  dec_value=_c10.h_dec_value, dec_long=_c10.h_dec_long, int_value=_c10.h_int_value, oneof=_c10.h_oneof, bool=_c10.h_bool)
 
